@@ -483,6 +483,8 @@ def _tolerances(prog: Program, res: Result):
     dfl = sr.defaults()
     for name in ("abs_tol", "rel_tol"):
         v = b.get(name, dfl.get(name))
+        if isinstance(v, ast.Name) and v.id in prog.modules[fi.module].constants:
+            v = prog.modules[fi.module].constants[v.id]  # a named module-level constant
         try:
             val = float(ast.literal_eval(v))
         except Exception:
@@ -492,6 +494,8 @@ def _tolerances(prog: Program, res: Result):
         if not ok:
             res.violation("R05.4", f"tolerance|{name}|{val:g}", prog.loc(fi, calls[0]), q, f"size() solves the height with {name} = {val:g}; the binding limit is then met only to that (coarser) tolerance")
     mi = b.get("max_iter", dfl.get("max_iter"))
+    if isinstance(mi, ast.Name) and mi.id in prog.modules[fi.module].constants:
+        mi = prog.modules[fi.module].constants[mi.id]
     try:
         mv = int(ast.literal_eval(mi))
     except Exception:
